@@ -51,6 +51,9 @@ def _net():
     t3 = net.trafo3w.index[0]
     pp.create_switch(net, net.trafo3w.hv_bus.at[t3], t3, "t3")
     pp.create_poly_cost(net, net.gen.index[0], "gen", 1.)
+    pp.create_poly_cost(net, net.ext_grid.index[0], "ext_grid", 2.)          # same element number as the gen, another element type
+    pp.create_pwl_cost(net, net.sgen.index[0], "sgen", [[0., 5., 1.]])
+    pp.create_pwl_cost(net, net.load.index[0], "load", [[0., 5., 1.]])
     pp.create_measurement(net, "p", "line", 1., 0.1, net.line.index[0], side="from")
     pp.create_measurement(net, "p", "trafo3w", 1., 0.1, t3, side="hv")
     pp.runpp(net)
@@ -79,7 +82,13 @@ def main(include_known=False):
            ("reindex_elements(trafo3w)", lambda n: pp.reindex_elements(n, "trafo3w", [int(n.trafo3w.index[0]) + 50])),
            ("reindex_elements(line)", lambda n: pp.reindex_elements(n, "line", list(n.line.index + 100))),
            ("reindex_elements(gen)", lambda n: pp.reindex_elements(n, "gen", list(n.gen.index + 7))),
-           ("create_continuous_elements_index", lambda n: pp.create_continuous_elements_index(n, start=3))]
+           ("create_continuous_elements_index", lambda n: pp.create_continuous_elements_index(n, start=3)),
+           ("select_subnet(buses around the gen, without the ext_grid)", lambda n: pp.select_subnet(
+               n, [b for b in n.bus.index if b != n.ext_grid.bus.iloc[0] and b != n.load.bus.at[n.load.index[0]]])),
+           ("select_subnet(buses of the ext_grid and the first sgen only)", lambda n: pp.select_subnet(
+               n, [n.ext_grid.bus.iloc[0], n.sgen.bus.at[n.sgen.index[0]]])),
+           ("drop_inactive_elements", lambda n: (n.bus.__setitem__("in_service", n.bus.index != n.load.bus.iloc[4]), pp.drop_inactive_elements(n))[1]),
+           ]
     for name, op in ops:
         net = _net()
         pre = dangling(net)
@@ -87,7 +96,9 @@ def main(include_known=False):
             print("replay network inconsistent before the operation:", pre)
             sys.exit(3)
         try:
-            op(net)
+            r = op(net)
+            if r is not None and hasattr(r, "bus"):
+                net = r                 # operations that return the edited network (select_subnet)
         except Exception as e:
             fails.append(f"{name}: raised {type(e).__name__}: {str(e)[:100]}")
             continue
